@@ -124,6 +124,21 @@ def pair_failures(a_d, b_d, axes_a, axes_b, st=None):
             fails.append((f"C06/strategies/{mode}/value", "differs from blockwise"))
         elif tuple(index_key(i) for i in c.indices) != tuple(index_key(i) for i in ref.indices):
             fails.append((f"C06/strategies/{mode}/indices", f"index tables differ from blockwise: {[dict(i.chargemap) for i in c.indices]} vs {[dict(i.chargemap) for i in ref.indices]}"))
+    # (i') the conjugated pair, contracted after the direct calls (the operands' index objects are hashed by now)
+    try:
+        ac_, bc_ = a.conj(), b.conj()
+        cb = run("conj-pair[blockwise]", lambda: sr.tensordot(ac_, bc_, axes, mode="blockwise", preserve_array=True))
+        cf = run("conj-pair[fused]", lambda: sr.tensordot(ac_, bc_, axes, mode="fused", preserve_array=True))
+        if cb is not None and cf is not None:
+            ob, of = as_obs(sym, cb, frame, dt), as_obs(sym, cf, frame, dt)
+            if ob[0] != of[0]:
+                fails.append(("C06/conj-pair/fused/rank-charge-directions-labels", f"{of[0]} vs blockwise {ob[0]}"))
+            elif not exact_equal(ob[1], of[1]):
+                fails.append(("C06/conj-pair/fused/value", "contraction of the conjugated operands: fused differs from blockwise"))
+            elif tuple(index_key(i) for i in cf.indices) != tuple(index_key(i) for i in cb.indices):
+                fails.append(("C06/conj-pair/fused/indices", "contraction of the conjugated operands: index tables differ from blockwise"))
+    except (KeyError, ValueError) as e:
+        fails.append(("C06/conj-pair/frame", repr(e)))
     # (ii) align, fuse the contracted axes, contract the single pair
     ncon = len(axes_a)
     if ncon >= 1:
